@@ -36,6 +36,7 @@ func runC03(opt *Options) int {
 	// in scope) is only real in whole runs
 	var convs []*layerb.Conv
 	convs = append(convs, layerb.FamilyField(opt.Thorough())...)
+	convs = append(convs, layerb.FamilyFieldRandom(map[bool]int{false: 16, true: 200}[opt.Thorough()])...)
 	for _, c := range layerb.FamilyShape(false, opt.Seed) {
 		if c.ExpectFail || strings.Contains(c.ID, "shape/alias_") {
 			convs = append(convs, c)
